@@ -2,7 +2,7 @@
 import collections
 import importlib
 
-from .common import pmap, jdump
+from .common import NCPU, pmap, jdump
 from .engines import opgraph
 from .report import HarnessError, Reporter
 
@@ -13,25 +13,28 @@ def _resolve(factory):
 
 
 def _run_one(job):
-    factory, cfg, keep, validate_every, max_states = job
+    factory, cfg, keep, validate_every, max_states, procs = job
     mk = _resolve(factory)
     res = opgraph.explore(mk, cfg, validate_every=validate_every, max_states=max_states,
-                          keep=set(keep) if keep is not None else None)
+                          keep=set(keep) if keep is not None else None, procs=procs)
     return {'cfg': cfg, 'summary': res.summary(), 'violations': res.violations,
             'samples': res.samples, 'cap_hit': res.cap_hit}
 
 
 def run_graphs(prop, tier, factory, cfgs, keep, *, single_outcome_ok=(), assumptions=(),
                validate_every=None, max_states=200000, rule='', engine='opgraph',
-               require_bound_hit=True, extra_cov=None):
+               require_bound_hit=True, extra_cov=None, pre_violations=()):
     """factory: 'module:callable' building a System from a cfg dict."""
     rep = Reporter(prop, tier, engine)
+    for (sig, what, replay) in pre_violations:
+        rep.violation(sig, what, replay)
     if validate_every is None:
         validate_every = 1 if tier == 'thorough' else 10
-    jobs = [(factory, c, sorted(keep) if keep is not None else None, validate_every, max_states)
+    inner = max(1, NCPU // max(1, len(cfgs)))
+    jobs = [(factory, c, sorted(keep) if keep is not None else None, validate_every, max_states, inner)
             for c in cfgs]
     # biggest graphs first for better packing
-    results = pmap(_run_one, jobs)
+    results = pmap(_run_one, jobs, procs=min(NCPU, len(jobs)))
     tot = collections.Counter()
     outcomes = collections.defaultdict(collections.Counter)
     samples = []
